@@ -60,6 +60,23 @@ Section Model.
   Definition dict_of_pairs (l : list (str * json)) : list (str * json) :=
     fold_left (fun acc kv => aset (fst kv) (snd kv) acc) l [].
 
+  (* the mapping the (repaired) _add_prefix builds from the prefixed pairs: the first condition on a key keeps its
+     place; a later condition on the same key ('a' next to 'sp.a') is moved into $and, so that all of them hold *)
+  Fixpoint split_clashes (l acc : list (str * json)) (cl : list json) : list (str * json) * list json :=
+    match l with
+    | [] => (acc, cl)
+    | (k, v) :: r =>
+        if str_mem k (map fst acc) then split_clashes r acc (cl ++ [JObj [(k, v)]])
+        else split_clashes r (acc ++ [(k, v)]) cl
+    end.
+
+  Definition collapse_and (l : list (str * json)) : list (str * json) :=
+    let (acc, cl) := split_clashes l [] [] in
+    match cl with
+    | [] => acc
+    | _ => aset s_and (JArr (match alookup s_and acc with Some (JArr items) => items | _ => [] end ++ cl)) acc
+    end.
+
   Fixpoint add_prefix (fuel : nat) (f : json) : result json :=
     match fuel with
     | O => Err EOther
@@ -90,7 +107,7 @@ Section Model.
                          else Ok (prefix_key k, v))
                         (fun kv' => bind (go r) (fun r' => Ok (kv' :: r')))
                   end) kvs)
-              (fun l => Ok (JObj (dict_of_pairs l)))
+              (fun l => Ok (JObj (collapse_and l)))
         | _ => Err EOther      (* .items() on a non-mapping: AttributeError *)
         end
     end.
